@@ -271,7 +271,10 @@ def r4_pool(repo):
         cg = [[(src(t), p) for t, p in flat_guards(n, stop=lp) if p] for n in conts]
         ok1 = any(g == [("isinstance(%s, tp.TypeConstructor)" % v, True)] for g in cg)
         ok2 = any(("isinstance(%s, ast.ClassDeclaration)" % v, True) in g and
-                  ("%s.class_type != ast.ClassDeclaration.REGULAR" % v, True) in g and len(g) == 2 for g in cg)
+                  len(g) == 1 for g in cg) and any(
+            ("isinstance(%s, ast.ClassDeclaration)" % v, True) in g_ and
+            ("%s.class_type == ast.ClassDeclaration.REGULAR" % v, False) in g_
+            for g_ in [[(src(t), p) for t, p in flat_guards(n, stop=lp)] for n in conts])
         box = [n for n in iter_own_nodes(lp) if isinstance(n, ast.Assign) and src(n.targets[0]) == v and
                src(n.value) == "%s.box_type()" % v]
         bg = [(src(t), p) for t, p in flat_guards(box[0], stop=lp)] if box else []
